@@ -14,8 +14,11 @@ PROP_FILE = "Properties/C02.v"
 TRUSTED = [
     "translator/c02.py (guard lists of Readout.__init__, Readout.times / start_time setters, "
     "ReadoutProperties.__init__, incl. the form of the start guard and the numpy-array conversion; table of "
-    "Detector.empty(reset); policy of Detector.set_readout and the wiring of its call in run_pipeline; fails closed on "
-    "any other shape)",
+    "Detector.empty(reset); the empty() of every container as a program over the pieces of state the container holds "
+    "(Photon, Charge: _array and _frame, ArrayBase / Pixel / Signal / Image, Scene), the attributes each container's "
+    "__init__ creates, whether the Charge.array property stores the derived array, empty() overrides of the Detector "
+    "subclasses; policy of Detector.set_readout and the wiring of its call in run_pipeline; fails closed on any other "
+    "shape)",
     "correspondence harness: harness/props/c02.py generators, harness/drivers/c02.py, probes/verif_probes_c02.py "
     "(the observing probes read private _array / _frame attributes of the containers)",
     "modelled, not verified: float64 arithmetic on the generated dyadic times is exact (checked per case in the "
@@ -124,14 +127,30 @@ def gen_times(r, n=None, start=None, incs=None):
     return ts, start
 
 
+DTYPES = {
+    "photon": (("float64", 80), ("float32", 15), ("float16", 5)),
+    "charge": (("float64", 85), ("float32", 15)),
+    "pixel": (("float64", 70), ("float32", 20), ("float16", 10)),
+    "signal": (("float64", 70), ("float32", 20), ("float16", 10)),
+    "image": (("uint16", 60), ("uint8", 10), ("uint32", 15), ("uint64", 15)),
+}
+
+
+def gen_dtype(r, b):
+    names, weights = zip(*DTYPES[b])
+    return r.choices(names, weights)[0]
+
+
 def gen_ops(r, b):
-    """The operations of one step on bucket b: [bucket, value, add, how]; a bucket may be filled more than once in a
-    step, charge through a mixture of its three ways in any order, photon either as a 2-D array or as a cube."""
+    """The operations of one step on bucket b: [bucket, value, add, how, dtype]; a bucket may be filled more than once
+    in a step, charge through a mixture of its three ways in any order, photon either as a 2-D array or as a cube; the
+    arrays handed over are of any dtype the container accepts."""
     if b == "scene":
         return [[b, 1, True, "add_source"]]
+    dt = gen_dtype(r, b)
     if b == "charge":
         k = r.choices([1, 2, 3], [60, 30, 10])[0]
-        return [[b, r.randrange(1, 30), True, r.choices(HOWS[b], [60, 20, 20])[0]] for _ in range(k)]
+        return [[b, r.randrange(1, 30), True, r.choices(HOWS[b], [60, 20, 20])[0], dt] for _ in range(k)]
     if b == "photon":
         hows = ("array_3d", "iadd_3d") if r.random() < 0.3 else ("array", "array_2d", "iadd", "array_iadd", "add_op")
     else:
@@ -140,7 +159,7 @@ def gen_ops(r, b):
     for j in range(r.choices([1, 2], [80, 20])[0]):
         how = r.choice(hows)
         add = how in ADD_HOWS or r.random() < ((0.8 if b == "pixel" else 0.4) if j == 0 else 0.7)
-        ops.append([b, r.randrange(1, 30), bool(add), how])
+        ops.append([b, r.randrange(1, 30), bool(add), how, dt])
     return ops
 
 
@@ -161,11 +180,43 @@ def gen_plan(r, n):
     return plan
 
 
+def gen_fill_exhaustive():
+    """Thorough tier: for every container EVERY ordered pair of its public ways of filling it (charge: every ordered
+    pair and triple of its three ways; photon: pairs within the 2-D ways and within the cube ways) applied in step 0 of
+    a two-readout run, in both readout modes, on every detector type: step 1 must start empty."""
+    import itertools
+
+    out = []
+    k = 0
+    for b in BUCKETS:
+        if b == "scene":
+            seqs = [("add_source",), ("add_source", "add_source")]
+        elif b == "charge":
+            seqs = [q for n in (1, 2, 3) for q in itertools.product(HOWS[b], repeat=n)]
+        elif b == "photon":
+            d2 = ("array", "array_2d", "iadd", "array_iadd", "add_op")
+            d3 = ("array_3d", "iadd_3d")
+            seqs = [(h,) for h in HOWS[b]] + list(itertools.product(d2, repeat=2)) + list(itertools.product(d3, repeat=2))
+        else:
+            seqs = [(h,) for h in HOWS[b]] + list(itertools.product(HOWS[b], repeat=2))
+        for seq in seqs:
+            for nd in (False, True):
+                for det in DETECTORS:
+                    dt = [] if b == "scene" else [DTYPES[b][k % len(DTYPES[b])][0]]
+                    ops = [[b, 2 + j, True if (b in ("scene", "charge") or h in ADD_HOWS or j > 0) else False, h] + dt
+                           for j, h in enumerate(seq)]
+                    out.append(dict(form="list", times=[hx(1.0), hx(2.0)], start=hx(0.0), nd=nd, ops=[], history="fresh",
+                                    wgroup=WGROUPS[k % len(WGROUPS)], rows=1 + k % 2, cols=1 + k % 3, entry="run_mode",
+                                    detector=det, plan=[ops, []], fill=True))
+                    k += 1
+    return out
+
+
 def no_cube(c):
     """The deprecated loop assembles its result from `photon.array` and cannot carry a 3-D photon cube (a limit of
     that entry's result assembly, not of the bucket lifecycle): its plans use the 2-D forms."""
     if c.get("entry") == "deprecated_loop":
-        c["plan"] = [[(w[:3] + [{"array_3d": "array", "iadd_3d": "iadd"}.get(w[3], w[3])] if len(w) > 3 else w)
+        c["plan"] = [[(w[:3] + [{"array_3d": "array", "iadd_3d": "iadd"}.get(w[3], w[3])] + w[4:] if len(w) > 3 else w)
                       for w in step] for step in c.get("plan", [])]
     return c
 
@@ -191,12 +242,13 @@ def gen_fill_cases(r):
         for how in HOWS[b]:
             for nd in (False, True):
                 v = 1 if b == "scene" else r.randrange(2, 30)
-                first = [[b, v, True if (b in ("scene", "charge") or how in ADD_HOWS) else False, how]]
+                dt = [] if b == "scene" else [DTYPES[b][k % len(DTYPES[b])][0]]
+                first = [[b, v, True if (b in ("scene", "charge") or how in ADD_HOWS) else False, how] + dt]
                 if how in ADD_HOWS and b not in ("scene", "charge"):
                     # on an initialised container, so that the in-place form is the one exercised
                     base_how = "array_3d" if how == "iadd_3d" else "array"
-                    first = [[b, r.randrange(2, 30), False, base_how]] + first
-                second = [[b, v + 1, first[-1][2], how]] if r.random() < 0.5 else []
+                    first = [[b, r.randrange(2, 30), False, base_how] + dt] + first
+                second = [[b, v + 1, first[-1][2], how] + dt] if r.random() < 0.5 else []
                 for det in (DETECTORS if b == "charge" else (DETECTORS[k % len(DETECTORS)],)):
                     case([first, second, []], nd, det, k)
                     k += 1
@@ -606,9 +658,18 @@ def gen_observations(r, n_random: int):
     return out
 
 
+def load_corpus():
+    """Minimised past failures (harness/corpus/C02/*.json), run first."""
+    from pathlib import Path
+
+    d = Path(__file__).resolve().parent.parent / "corpus" / "C02"
+    return [json.loads(f.read_text()) for f in sorted(d.glob("*.json"))] if d.is_dir() else []
+
+
 def gen_cases(ctx: Ctx, n_valid: int, mal_reps: int, n_sessions: int = 0, n_observations: int = 0, n_float: int = 0):
     r = ctx.rng("cases")
-    cases = []
+    cases = load_corpus()
+    n_valid += len(cases)
     # every (history, mode) pair with a multi-step pixel-accumulating plan: the leak / flag mutations
     for h in HISTORIES:
         for nd in (False, True):
@@ -627,7 +688,9 @@ def gen_cases(ctx: Ctx, n_valid: int, mal_reps: int, n_sessions: int = 0, n_obse
         c = gen_valid_case(r, dict(form="list", nops=0, history="fresh"))
         c["ops"] = [[k, a]] if k == "replace_nd" else [[k, hx(fl(c["times"][0]) - 1.0)]]
         cases.append(c)
-    cases += gen_fill_cases(ctx.rng("fill"))
+    fill = gen_fill_cases(ctx.rng("fill"))
+    cases += fill
+    n_valid += len(fill) // 4      # the directed fill cases take the place of three quarters as many random ones
     while len(cases) < n_valid:
         cases.append(gen_valid_case(r))
     cases += gen_malformed_cases(r, mal_reps)
@@ -692,7 +755,7 @@ def cdet(d) -> str:
     return "(mkdet " + " ".join(coz(d.get(b)) for b in PIECES) + ")"
 
 
-def cwop(b, v, add, how=None) -> str:
+def cwop(b, v, add, how=None, dtype=None) -> str:
     if b == "scene":
         return "(WAdd Scene 1%Z)"
     if b == "charge" and how in ("particles", "dataframe"):
@@ -1044,10 +1107,15 @@ def shrink(ctx: Ctx, c, o):
     base_forms = c["form"] if c["form"] in ("ndarray", "list2d") else "list"
     if clause in ("clock", "step_start_buckets", "once_per_time") and sched_class(fts, fstart) is None:
         px = [[["pixel", 3, True]] for _ in fts]
+        # only the operations on the bucket that is found non-empty, then each of them alone in the first step
+        bk = classify(c, o)[1].get("bucket")
+        only = [[w for w in st if w[0] == bk] for st in c.get("plan", [])] if bk else []
+        singles = [[[w]] + [[] for _ in fts[1:]] for st in only for w in st][:8]
         for n in (1, 2, 3, len(fts)):
             if n <= len(fts):
                 for hist in ("fresh", c.get("history", "fresh")):
-                    for plan in ([[] for _ in range(n)], px[:n], c.get("plan", [])[:n]):
+                    for plan in [[[] for _ in range(n)], px[:n], c.get("plan", [])[:n]] + \
+                            ([only[:n]] if bk else []) + [sg[:n] for sg in singles]:
                         cands.append(dict(form=base_forms, times=[hx(t) for t in fts[:n]], start=hx(fstart),
                                           nd=fnd, ops=[], plan=plan, history=hist, wgroup=c.get("wgroup"),
                                           rows=1, cols=1, **{k: c[k] for k in ("entry", "detector", "float") if c.get(k)}))
@@ -1118,8 +1186,11 @@ def run(ctx: Ctx):
         "increasing (the code, and the model, only test the FIRST time against zero)",
         "times are finite rationals or NaN; generated times are dyadic so that the implementation's float arithmetic "
         "is exact (checked with Fractions for every generated case)",
-        "the per-step models are arbitrary state transformers of the six buckets that may read the clock; they do not "
-        "modify the clock or call detector.empty()/set_readout() themselves",
+        "the per-step models are arbitrary state transformers of the six buckets (seven pieces of state: Charge holds a "
+        "2-D array and a particle dataframe) that may read the clock; they do not modify the clock or call "
+        "detector.empty()/set_readout() themselves",
+        "emptiness of a piece of state: scene without source, photon/signal/image `_array is None`, charge array all "
+        "zero, charge dataframe without rows, pixel array all zero (Pixel.empty stores zeros)",
     ]
     gen = {}
     try:
@@ -1140,6 +1211,9 @@ def run(ctx: Ctx):
     if not ctx.quick:
         ex = gen_sessions_exhaustive()
         ctx.cov["exhaustive_two_run_sessions"] = len(ex)
+        cases += ex
+        ex = gen_fill_exhaustive()
+        ctx.cov["exhaustive_ways_of_filling_a_container_before_a_step_boundary"] = len(ex)
         cases += ex
     mism, viol, pairs = evaluate(ctx, cases)
     distinct = set()
@@ -1176,6 +1250,8 @@ def search(ctx: Ctx):
                 cases.append(gen_valid_case(r, dict(history=h, nd=nd, form="list", n=n)))
     for _ in range(400):
         cases.append(gen_valid_case(r))
+    cases += gen_fill_cases(r)
+    cases += gen_fill_exhaustive()
     cases += gen_sessions(r, 150)
     mism, viol, pairs = evaluate(ctx, cases, tag="s")
     ctx.cov["search_cases"] = len(pairs)
@@ -1227,20 +1303,25 @@ META = dict(
         "form of `times` (list/tuple/scalar/expression/file/numpy array) and arbitrary SESSIONS of several runs on one "
         "detector object with arbitrary changes of the detector by the caller in between, over an executable model of "
         "Readout.__init__/setters/replace, ReadoutProperties.__init__, Detector.set_readout, calculate_steps, "
-        "run_pipeline's loop (storing the clock into / reading it from the ReadoutProperties object) and "
-        "Detector.empty(reset): one step per time in order; the clock tuple at step i; the telescoping sum of the steps "
+        "run_pipeline's loop (storing the clock into / reading it from the ReadoutProperties object), "
+        "Detector.empty(reset) and the empty() of every container as a program over the pieces of state it holds (Charge: "
+        "the 2-D array AND the particle dataframe): one step per time in order; the clock tuple at step i; the telescoping sum of the steps "
         "(exported for C17); bucket state at every step start; the object-level run refines the functional run; "
         "independence from the whole prior detector state; every run of every session equals the same run alone on a "
         "blank detector; EVERY invalid schedule (NaN included) is rejected before any model runs on every path and leaves "
         "the detector untouched; a caller who only installs valid schedules is never refused (numpy arrays and "
         "replace() included). The guard lists of the four validation sites (with the form of the start guard: negative "
         "`start >= t0` lets NaN through, positive `not start < t0` refuses it), whether the constructor converts numpy "
-        "arrays, the table of Detector.empty and the policy of Detector.set_readout (always a new ReadoutProperties "
-        "from its arguments) are regenerated from the source on every run and the theorems are re-checked against "
-        "them. That the Python behaves like the model is established by correspondence (testing): real exposures "
+        "arrays, the table of Detector.empty, the program of every container's empty() (proved to re-initialise every "
+        "piece of the container on EVERY state by running it on all 2^7 shapes of a state) and the policy of "
+        "Detector.set_readout (always a new ReadoutProperties from its arguments) are regenerated from the source on "
+        "every run and the theorems are re-checked against them. That the Python behaves like the model is established by correspondence (testing): real exposures "
         "(pyxel.run_mode, Exposure.run_exposure, the deprecated loop; CCD/CMOS/MKID/APD), single runs and sessions of 2-4 "
-        "runs on one detector object, with observing probes first/last in every step, are compared with the "
-        "object-level model started from the observed detector state, and judged against the specification, inside Coq."),
+        "runs on one detector object, with observing probes first/last in every step and a writer that fills every "
+        "container through every public way of filling it (charge as array / particles / dataframe and mixtures, photon "
+        "2-D / cube / +=, pixel-signal-image setter / update() / in-place forms, all accepted dtypes), are compared with "
+        "the object-level model started from the observed detector state, and judged against the specification, inside "
+        "Coq."),
     level_note=(
         "Trusted: Coq kernel + vm_compute; translator/c02.py; the correspondence harness and probes; exactness of float "
         "arithmetic on the generated dyadic times (checked per case); numpy expression / file readers return what the "
